@@ -36,19 +36,28 @@ func detMarshal(m proto.Message, op detOp) (res string) {
 	switch op.api {
 	case 0:
 		b, err := proto.MarshalOptions{Deterministic: true}.Marshal(m)
-		return fmt.Sprintf("%x %v", b, err)
+		return render(b, err)
 	case 1:
 		prefix := make([]byte, 2, 40)
 		b, err := proto.MarshalOptions{Deterministic: true}.MarshalAppend(prefix, m)
 		if err == nil && len(b) >= 2 {
 			b = b[2:]
 		}
-		return fmt.Sprintf("%x %v", b, err)
+		return render(b, err)
 	default:
 		meth := m.ProtoReflect().ProtoMethods()
 		out, err := meth.Marshal(protoiface.MarshalInput{Message: m.ProtoReflect(), Flags: protoiface.MarshalDeterministic})
-		return fmt.Sprintf("%x %v", out.Buf, err)
+		return render(out.Buf, err)
 	}
+}
+
+// render: the bytes of a successful call; of a failed one only the error
+// (whatever partial output comes with an error is not an encoding).
+func render(b []byte, err error) string {
+	if err != nil {
+		return "error: " + err.Error()
+	}
+	return fmt.Sprintf("%x", b)
 }
 
 func runDetMarshal(c *simrun.Ctx) *simrun.Violation {
@@ -57,7 +66,7 @@ func runDetMarshal(c *simrun.Ctx) *simrun.Violation {
 	proto0 := pickType(t)
 	mt := proto0.ProtoReflect().Type()
 	md := mt.Descriptor()
-	cfg := simval.GenCfg{MaxDepth: 1 + t.Draw("maxdepth", 3), MaxFields: 1 + t.Draw("maxfields", 6), MaxMapEntries: 2 + t.Draw("maxentries", 8), MaxListLen: 1 + t.Draw("maxlist", 3), AnyTargets: anyTargets()}
+	cfg := simval.GenCfg{MaxDepth: 1 + t.Draw("maxdepth", 3), MaxFields: 1 + t.Draw("maxfields", 6), MaxMapEntries: 2 + t.Draw("maxentries", 8), MaxListLen: 1 + t.Draw("maxlist", 3), AnyTargets: anyTargets(), InvalidUTF8: t.Chance("allow-invalid-utf8", 1, 5)}
 	av := simval.Gen(t, md, cfg)
 	canon := simval.Canon(av)
 	pr := simval.ProbeValue(av)
@@ -165,6 +174,7 @@ func runDetMarshal(c *simrun.Ctx) *simrun.Violation {
 	st.Add("simulations", 1)
 	st.Add("scheduler_steps", int64(sched.Steps))
 	st.Add("fault_context_switches", int64(sched.Switches))
+	st.Add("probe_task_blocked_in_a_real_lock_and_holder_released_it", int64(sched.Blocked))
 	if sched.Switches >= 4 {
 		st.Add("runs_with_4plus_preemptions", 1)
 	}
